@@ -220,13 +220,15 @@ def run(ctx):
 META = {
     'technique': 'static analysis: symbolic value analysis against reference transcriptions of the FIR+DFT definition '
                  '(FORMULA/AGREE incl. loop-body stores and trip counts), attribute writer sets (WHOWRITES), allocation-dtype '
-                 'dataflow (DTYPE)',
+                 'dataflow (DTYPE) , module sweep for layout-dependent reads (EFFECTS)',
     'level': 'Decides from the source that the window, the sliding weighted sum (row t = sum of T rows from t times the '
              'window), the FFT length/axis/lower-half selection/normalisation and the cache protocol (tail of the concatenated'
              ' input taken before the front end, untouched when cache=False, written by three methods only) are those of the '
              'definition, and that no fixed-dtype buffer drops the imaginary part of complex input. Numerical equality with an'
              ' independent FIR+DFT evaluation is not decided. Also decided: the window carried between calls is the '
-             "filterbank's own copy, never a view of the caller's array (ALIASINPLACE).",
+             "filterbank's own copy, never a view of the caller's array (ALIASINPLACE). Also decided: nothing in the "
+             'filterbank module reads an array through its memory layout (as_strided with strides not taken from the array, '
+             'raw buffers, dtype re-interpretation), so the result is a function of the sample values.',
     'note': 'Real arithmetic; numpy reshape/fft/sum/concatenate semantics taken from their signatures; the loop is analysed '
             'for a symbolic iteration index.',
 }
